@@ -594,6 +594,8 @@ func runC05(c *Ctx) {
 	nRand := c.pick(250000, 2500000)
 	for _, mask := range masks {
 		cfg, name := setRegistry(c, mask)
+		c05pointers(c, mask&1 != 0)
+		c05badVerbContainers(c, cfg)
 		c.ParallelFor(int64(len(product)), func(w *Worker, i int64) { c05check(w, cfg, name, product[i], i) })
 		c.ParallelFor(nRand, func(w *Worker, i int64) {
 			r := newRng(c.Seed, 0xc05, uint64(mask), uint64(i))
@@ -603,5 +605,5 @@ func runC05(c *Ctx) {
 		c.AddCount("configurations", 1)
 	}
 	redact.VerifResetSafeTypes()
-	c.res.Assumptions = []string{"go1.23.5 fmt (incl. fmt.FormatString) renders the instrumented operands", "domain per the quantifier: verbs valid for their operands; leaves = scalars, strings and values printed through their own method; complex numbers, byte slices under %v/%d, %T/%p and unexported fields are left to C02/C04"}
+	c.res.Assumptions = []string{"go1.23.5 fmt (incl. fmt.FormatString) renders the instrumented operands", "domain per the quantifier: verbs valid for their operands; leaves = scalars, strings and values printed through their own method; complex numbers, byte slices under %v/%d and unexported fields are left to C02/C04; %p/%T are asserted on a fixed list of pointer-like operands (declared safe by type, by Safe(), by registration, or not at all) x 44 directives"}
 }
